@@ -30,7 +30,7 @@
 //!        c06 records <scenarios.ndjson> <records.ndjson> <trace.ndjson>
 //!              what jet1090 printed for those frames -> events (family "jet:<fam>")
 //! Airborne frames carry altitudes >= 1000 ft (decode1090 moves its reference below that).
-use rs1090::decode::cpr::{decode_position, decode_positions, AircraftState, Position};
+use rs1090::decode::cpr::{decode_position, decode_positions, AircraftState, Position, UpdateIf};
 use rs1090::decode::{Message, TimedMessage, DF, ICAO};
 use rs1090::prelude::*;
 use rsdriver::*;
@@ -160,20 +160,44 @@ fn attached(m: &Option<Message>, tlat: f64, tlon: f64) -> Value {
 /// one step of the interleaved driver loop, as decode1090 / jet1090 do it
 fn step(msg: &mut Option<Message>, ts: f64, aircraft: &mut BTreeMap<ICAO, AircraftState>,
         reference: &mut Option<Position>) -> bool {
+    step_with(msg, ts, aircraft, reference, &None)
+}
+
+fn step_with(msg: &mut Option<Message>, ts: f64, aircraft: &mut BTreeMap<ICAO, AircraftState>,
+             reference: &mut Option<Position>, update: &UpdateIf) -> bool {
     let r = catch_unwind(AssertUnwindSafe(|| {
         if let Some(message) = msg {
             match &mut message.df {
                 DF::ExtendedSquitterADSB(adsb) => {
-                    decode_position(&mut adsb.message, ts, &adsb.icao24, aircraft, reference, &None)
+                    decode_position(&mut adsb.message, ts, &adsb.icao24, aircraft, reference, update)
                 }
                 DF::ExtendedSquitterTisB { cf, .. } => {
-                    decode_position(&mut cf.me, ts, &cf.aa, aircraft, reference, &None)
+                    decode_position(&mut cf.me, ts, &cf.aa, aircraft, reference, update)
                 }
                 _ => {}
             }
         }
     }));
     r.is_ok()
+}
+
+/// the predicate jet1090 installs with --update-position (main.rs): altitude known and below 5000 ft
+const LOW_FT: i64 = 5000;
+fn is_low(p: &AirbornePosition) -> bool {
+    p.alt.is_some_and(|alt| (alt as i64) < LOW_FT)
+}
+fn low_of(m: &Option<Message>) -> bool {
+    match m.as_ref().and_then(me_of) {
+        Some((ME::BDS05(p), _)) => is_low(p),
+        _ => false,
+    }
+}
+fn ref_json(r: &Option<Position>) -> Value {
+    match r {
+        Some(p) => json!({"o": "some", "lat": scale(p.latitude, 1.0e6), "lon": scale(p.longitude, 1.0e6),
+                          "latb": f64_bits(p.latitude), "lonb": f64_bits(p.longitude)}),
+        None => json!({"o": "none"}),
+    }
 }
 
 fn geti(v: &Value, k: usize) -> i64 {
@@ -190,6 +214,8 @@ struct Stats {
     some_surf: u64,
     none_surf: u64,
     multi_aircraft: u64,
+    ref_moves: u64,          // calls of the moving run after which the reference is a new one
+    mov_surf_by_moved_ref: u64, // surface reports of the moving run answered while a moved reference was in force
     nontrivial: Vec<String>, // content hashes of scenarios in which at least one report got a position
 }
 
@@ -273,6 +299,34 @@ fn run_scenario(sc: &Value, tr: &mut Trace, stats: &mut Stats) {
         }
     }
 
+    // interleaved under a MOVING receiver reference (Trajectory!RefStep): the callback of
+    // `jet1090 --update-position`; logged per report: the reference in force after the call and the
+    // ruler's distance from the truth to the reference in force BEFORE it (the property's premise)
+    let update: UpdateIf = Some(Box::new(is_low));
+    let mut mov = fresh.clone();
+    let mut mov_ok = vec![true; reports.len()];
+    let mut mov_ref: Vec<Value> = vec![];
+    let mut mov_dref: Vec<i64> = vec![];
+    {
+        let mut aircraft: BTreeMap<ICAO, AircraftState> = BTreeMap::new();
+        let mut reference = reference0;
+        for (k, r) in reports.iter().enumerate() {
+            mov_dref.push(match &reference {
+                Some(p) => ruler_mm(deg(r.l), deg(r.m), p.latitude, p.longitude),
+                None => SAT,
+            });
+            let before = reference;
+            mov_ok[k] = step_with(&mut mov[k], r.ts_ms as f64 / 1000.0, &mut aircraft, &mut reference, &update);
+            if reference != before {
+                stats.ref_moves += 1;
+            }
+            if r.kind == 1 && before != reference0 {
+                stats.mov_surf_by_moved_ref += 1;
+            }
+            mov_ref.push(ref_json(&reference));
+        }
+    }
+
     // batch API
     let mut timed: Vec<TimedMessage> = reports.iter().enumerate().map(|(k, r)| TimedMessage {
         timestamp: r.ts_ms as f64 / 1000.0,
@@ -286,6 +340,7 @@ fn run_scenario(sc: &Value, tr: &mut Trace, stats: &mut Stats) {
     tr.emit(json!({
         "e": "scen", "sc": id, "fam": fam, "n": reports.len(), "nac": acs.len(),
         "ref": if has_ref { json!([rl, rm]) } else { json!("none") },
+        "ref0": ref_json(&reference0),
         "refu": sc["refu"].as_i64().unwrap_or(-999999), "vmax": vmax, "sdref": sdref, "refkept": ref_kept, "batch_ok": batch_ok,
     }));
     stats.scenarios += 1;
@@ -327,6 +382,7 @@ fn run_scenario(sc: &Value, tr: &mut Trace, stats: &mut Stats) {
             "iso": out(iso_ok[k], &iso[k]),
             "batch": out(batch_ok, &timed[k].message),
             "epoch": out(epo_ok[k], &epo[k]),
+            "mov": out(mov_ok[k], &mov[k]), "mref": mov_ref[k], "mdref": mov_dref[k], "mlow": low_of(&fresh[k]),
         }));
     }
 }
@@ -626,6 +682,7 @@ fn main() {
         "events": tr.n, "scenarios": stats.scenarios, "reports": stats.reports,
         "some_air": stats.some_air, "none_air": stats.none_air,
         "some_surf": stats.some_surf, "none_surf": stats.none_surf,
-        "multi_aircraft": stats.multi_aircraft, "nontrivial": stats.nontrivial,
+        "multi_aircraft": stats.multi_aircraft, "ref_moves": stats.ref_moves,
+        "mov_surf_by_moved_ref": stats.mov_surf_by_moved_ref, "nontrivial": stats.nontrivial,
     }));
 }
